@@ -516,6 +516,29 @@ pub fn calls_cases(sigil: Option<&'static str>, max_helpers: usize) -> Vec<Case>
         let g = Helper::Fun { name: "G".into(), inline: false, params: Pat::list(vec![Pat::n("Y")]), body: E::List(vec![E::v("Y"), E::call("K", vec![]), E::call("F", vec![E::int(1)]), E::call("F", vec![E::call("K", vec![])])]) };
         out.push(Case { prog: Prog { sigil, params: params.clone(), helpers: vec![k, f, g], body: E::call("G", vec![E::v("B")]) }, args: args.clone(), tags: vec!["calls/constant-calls-in-helper".into(), format!("inline-k:{}", inline_k)] });
     }
+    // constant positional arguments together with a constant &rest tail (the constant-call folder sees both)
+    for inline in [false, true] {
+        for in_helper in [false, true] {
+            let f = Helper::Fun { name: "F".into(), inline, params: Pat::list_tail(vec![Pat::n("P"), Pat::n("Q")], Pat::n("R")), body: E::List(vec![E::int(9), E::v("P"), E::v("Q"), E::v("R")]) };
+            let g4 = Helper::Fun { name: "S".into(), inline, params: Pat::list(vec![Pat::n("P"), Pat::n("Q"), Pat::n("R"), Pat::n("T")]), body: E::prim("+", vec![E::prim("*", vec![E::v("P"), E::int(1000)]), E::prim("+", vec![E::prim("*", vec![E::v("Q"), E::int(100)]), E::prim("+", vec![E::prim("*", vec![E::v("R"), E::int(10)]), E::v("T")])])]) };
+            let tails: Vec<(&str, E)> = vec![
+                ("quoted-list", E::Quote(T::list(&[T::int(3), T::int(4)]))),
+                ("quoted-nil", E::Quote(T::nil())),
+                ("cons-of-constants", E::prim("c", vec![E::int(3), E::Quote(T::list(&[T::int(4)]))])),
+                ("list-macro", E::List(vec![E::int(3), E::int(4)])),
+            ];
+            for (tn, tail) in tails {
+                let call_f = E::Call("F".into(), vec![E::int(1), E::int(2)], Some(Box::new(tail.clone())));
+                let call_s = E::Call("S".into(), vec![E::int(1), E::int(2)], Some(Box::new(tail.clone())));
+                let (helpers, body) = if in_helper {
+                    (vec![f.clone(), g4.clone(), Helper::Fun { name: "W".into(), inline: false, params: Pat::list(vec![Pat::n("Z")]), body: E::List(vec![E::v("Z"), call_f, call_s]) }], E::call("W", vec![E::v("B")]))
+                } else {
+                    (vec![f.clone(), g4.clone()], E::List(vec![E::v("B"), call_f, call_s]))
+                };
+                out.push(Case { prog: Prog { sigil, params: params.clone(), helpers, body }, args: args.clone(), tags: vec!["calls/constant-args-with-constant-rest-tail".into(), format!("{}-{}-{}", if inline { "inline" } else { "defun" }, if in_helper { "in-helper" } else { "in-main" }, tn)] });
+            }
+        }
+    }
     // all kind assignments for a chain H1 -> H2 -> H3 (acyclic), each defun or inline, with a &rest tail at each possible call
     let n = max_helpers.min(3);
     for kinds in 0..(1u32 << n) {
